@@ -1,7 +1,7 @@
 (* C16 - Denied-key tracking is bounded, never overstates, and exports safely. *)
-From Coq Require Import ZArith NArith List Bool.
+From Coq Require Import ZArith NArith List Bool Permutation.
 Import ListNotations.
-Require Import TC.Generated.Consts TC.Base.Map TC.Resp.Utf8 TC.Server.Denied TC.Server.Escape TC.Corr.DeniedCorr TC.Corr.DeniedSound.
+Require Import TC.Generated.Consts TC.Base.Map TC.Resp.Utf8 TC.Server.Denied TC.Server.Escape TC.Corr.DeniedCorr TC.Corr.DeniedSound TC.Server.DeniedConc.
 Open Scope Z_scope.
 
 (* [dstep]/[drun]: every behaviour of TopDeniedKeys::update (+ cleanup) for every survivor choice an
@@ -72,3 +72,22 @@ Theorem C16_acceptance_sound :
   Forall (fun o => exists t1, dstep mx (d_prev o) (d_key o) t1 /\ same_map t1 (d_next o) /\ valid_top mx (d_next o) (d_top o)) obs.
 Proof. exact denied_case_ok_sound. Qed.
 Print Assumptions C16_acceptance_sound.
+
+(* CONCURRENT recorders.  Every table update runs under one mutex, so an execution with many recorder threads applies the
+   denials they recorded in SOME order: a permutation [ks'] of the recorded events [ks].  Whatever that order, while the
+   distinct keys of the recorded events fit the table the report has one line per distinct key and every count is the
+   key's true count among the recorded events (all premises are about the multiset [ks]). *)
+Theorem C16_exact_any_interleaving :
+  forall (mx : nat) (ks ks' : list bytes) (t : tbl) (r : list (bytes * Z)),
+  Permutation ks ks' ->
+  (1 <= mx)%nat -> (length (exact_tbl [] ks) <= mx)%nat -> drun mx [] ks' t -> valid_top mx t r ->
+  length r = length (exact_tbl [] ks) /\ forall k n, In (k, n) r -> n = true_count ks k.
+Proof. exact report_exact_any_interleaving'. Qed.
+Print Assumptions C16_exact_any_interleaving.
+
+(* and never above the true count, in any order, for any number of distinct keys *)
+Theorem C16_never_overstates_any_interleaving :
+  forall (mx : nat) (ks ks' : list bytes) (t : tbl) (r : list (bytes * Z)) (k : bytes) (n : Z),
+  Permutation ks ks' -> drun mx [] ks' t -> valid_top mx t r -> In (k, n) r -> 1 <= n <= true_count ks k.
+Proof. exact report_never_overstates_any_interleaving. Qed.
+Print Assumptions C16_never_overstates_any_interleaving.
